@@ -3,7 +3,13 @@ PROP = {
  "functions": [
   "saml2_tophat.entity:Entity.pick_binding[assertion_consumer_service]",
   "saml2_tophat.entity:Entity.response_args[AuthnRequest]",
-  "saml2_tophat.mdstore:destinations"
+  "saml2_tophat.mdstore:destinations",
+  "saml2_tophat.entity:Entity.pick_binding[single_logout_service]",
+  "saml2_tophat.entity:Entity.pick_binding[manage_name_id_service]",
+  "saml2_tophat.entity:Entity.pick_binding[attribute_consuming_service]",
+  "saml2_tophat.entity:Entity.response_args[LogoutRequest]",
+  "saml2_tophat.entity:Entity.response_args[ManageNameIDRequest]",
+  "saml2_tophat.entity:Entity.response_args[AttributeQuery]"
  ],
  "bounded": [
   "endpoint_choice"
